@@ -997,7 +997,33 @@ func ensureServiceTxn(tx WriteTxn, idx uint64, node string, preserveIndexes bool
 	}
 
 	// Insert the service and update the index
-	return catalogInsertService(tx, entry)
+	if err := catalogInsertService(tx, entry); err != nil {
+		return err
+	}
+
+	// An update in place may have removed the last connect-enabled instance of a service name (the
+	// instance is no longer connect-native, or the proxy now has another destination): clean up as
+	// deleteServiceTxn does.
+	if prev, ok := existing.(*structs.ServiceNode); ok && svc.PeerName == "" {
+		prevName, _ := connectNameFromServiceNode(prev)
+		newName, _ := connectNameFromServiceNode(entry)
+		if prevName != "" && !strings.EqualFold(prevName, newName) {
+			sn := structs.ServiceName{Name: prevName, EnterpriseMeta: svc.EnterpriseMeta}
+			connectEnabled, err := serviceHasConnectEnabledInstances(tx, sn.Name, &sn.EnterpriseMeta)
+			if err != nil {
+				return fmt.Errorf("failed to search for connect instances for service %q: %w", sn.Name, err)
+			}
+			if !connectEnabled {
+				if err := cleanupKindServiceName(tx, idx, sn, structs.ServiceKindConnectEnabled); err != nil {
+					return fmt.Errorf("failed to cleanup connect-enabled service name: %v", err)
+				}
+				if err := cleanupGatewayWildcards(tx, idx, sn, false); err != nil {
+					return fmt.Errorf("failed to clean up gateway-service associations for %q: %v", sn.String(), err)
+				}
+			}
+		}
+	}
+	return nil
 }
 
 // assignServiceVirtualIP assigns a virtual IP to the target service and updates
